@@ -160,6 +160,15 @@ def const_values(expr, fn_node, _seen=()):
     if isinstance(expr, ast.IfExp):
         a, b = const_values(expr.body, fn_node, _seen), const_values(expr.orelse, fn_node, _seen)
         return None if a is None or b is None else a | b
+    if isinstance(expr, ast.BoolOp):
+        # `x or "default"` / `a and b`: the result is one of the operands
+        out = set()
+        for v in expr.values:
+            cv = const_values(v, fn_node, _seen)
+            if cv is None:
+                return None
+            out |= cv
+        return out
     if isinstance(expr, ast.Call):
         f = expr.func
         if isinstance(f, ast.Name) and f.id == "next" and expr.args and isinstance(expr.args[0], ast.GeneratorExp):
